@@ -6,7 +6,7 @@ import ast
 
 from ..astutil import cond_terms, requires_flag, size_dependent
 from ..cfg import CFG
-from ..core import callee_is, AnalysisError, const_value, walk_own
+from ..core import delayed_task_of, callee_is, AnalysisError, const_value, walk_own
 from ..tutil import lin, np_call
 from ..defuse import MUTATORS, DefUse, Terms, show, walk_term
 from ..defuse import key as tkey
@@ -379,8 +379,7 @@ def _models_sorted(ctx):
               why, node=unzips[0])
     # fold numbers: enumerate index over the full list of training sets
     tasks = [n for n in ast.walk(f.node) if isinstance(n, ast.Call)
-             and isinstance(n.func, ast.Call)
-             and ast.unparse(n.func) == "delayed(_fit_model)"]
+             and delayed_task_of(prog, f, n, "_fit_model")]
     ctx.require(len(tasks) == 1, f"{f.qual}: _fit_model task not found")
     gen = None
     for n in ast.walk(f.node):
